@@ -416,7 +416,13 @@ func (wf *Workflow[I, O]) compile(ctx context.Context, options *graphCompileOpti
 	}
 
 	for _, wb := range wf.workflowBranches {
+		if wb.GraphBranch == nil {
+			return nil, fmt.Errorf("workflow branch of node '%s' is nil", wb.fromNodeKey)
+		}
 		for endNode := range wb.endNodes {
+			if _, ok := wf.workflowNodes[endNode]; !ok && endNode != END {
+				return nil, fmt.Errorf("workflow branch end node '%s' of node '%s' needs to be added to workflow first", endNode, wb.fromNodeKey)
+			}
 			if endNode == END {
 				if _, ok := wf.dependencies[END]; !ok {
 					wf.dependencies[END] = make(map[string]dependencyType)
